@@ -6,6 +6,21 @@ namespace Pike
 namespace C02
 open Sys Entry
 
+/-- Obligations on the extracted facts that the model's atomic steps rest on:
+* a waiter waits with a plain channel receive (it cannot leave the wait while its channel is still
+  registered — `Sys.step (.park t)` / `(.send c)`);
+* `Cacheable` and `HitForPass` are each ONE critical section of the entry mutex held to the end of the
+  function: fields, detached list and the sends to the waiters happen under it (`Sys.step (.complete t _)`
+  up to `(.saved t _)`), and the lookup `Get` locks once;
+* the location's proxy timeout is attached to the context the reverse proxy uses, so an upstream that
+  never answers ends as an error (the `upEnd` event the progress theorems condition on does occur). -/
+theorem facts_wait_and_completion :
+    Facts.getShape = "ok"
+    ∧ "httpCache.Cacheable:httpCache:1:deferred" ∈ Facts.lockSections
+    ∧ "httpCache.HitForPass:httpCache:1:deferred" ∈ Facts.lockSections
+    ∧ "httpCache.Get:httpCache:1:explicit" ∈ Facts.lockSections
+    ∧ Facts.proxyTimeoutAttached = true := by decide
+
 /-- a thread is waiting for the environment: its upstream request is in flight.  The property
 conditions on every upstream request ending (the proxy timeout turns a silent upstream into 504) -/
 def inUpstream : Pc → Bool
